@@ -510,6 +510,77 @@ theorem C15_total_unrepaired_partial (dd : Bool) (s : BSet) (h : WF s) (mint max
     rw [h.len]
     simp [hlt]
 
+/-! ## Histories: every set reachable by adds and removes -/
+
+theorem remove_wf {s : BSet} (h : WF s) (id : Nat) : WF (remove s id) := by
+  refine ⟨h.desc, by simpa [remove, removeLevels_length] using h.len, ?_, ?_⟩
+  · intro i l r hl hr b hb
+    obtain ⟨l0, h1, h2⟩ := removeLevels_level id s.blocks i l hl
+    exact h.typed i l0 r h1 hr b (h2.subset hb)
+  · intro l hl
+    obtain ⟨l0, h1, h2⟩ := removeLevels_mem_level id s.blocks l hl
+    exact List.Pairwise.sublist h2 (h.sorted l0 h1)
+
+theorem remove_distinct {s : BSet} (h : AllDistinct s.blocks) (id : Nat) : AllDistinct (remove s id).blocks :=
+  List.Sublist.nodup (removeLevels_flatten_sublist id s.blocks) h
+
+/-- the sets the store gateway can hold: built from the empty set by `add` (of a block object that is not in the
+    set: a block is loaded once; a re-added block is a new object) and `remove`, in any order -/
+inductive Reachable : BSet → Prop where
+  | empty : Reachable empty
+  | add {s s' : BSet} {b : Block} : Reachable s → b ∉ s.blocks.flatten → add s b = some s' → Reachable s'
+  | remove {s : BSet} (id : Nat) : Reachable s → Reachable (remove s id)
+
+theorem reachable_wf {s : BSet} (h : Reachable s) : WF s := by
+  induction h with
+  | empty => exact empty_wf
+  | add _ _ ha ih => exact add_wf ih ha
+  | remove id _ ih => exact remove_wf ih id
+
+theorem reachable_distinct {s : BSet} (h : Reachable s) : AllDistinct s.blocks := by
+  induction h with
+  | empty => unfold AllDistinct; rw [empty_flatten]; simp
+  | @add s s' b _ hb ha ih =>
+    unfold BlockSet.add at ha
+    cases hat : addAt s.ress s.blocks b with
+    | none => simp [hat] at ha
+    | some bl =>
+      simp [hat] at ha
+      subst ha
+      exact (addAt_flatten _ _ _ _ hat ih hb).1
+  | remove id _ ih => exact remove_distinct ih id
+
+/-- C15 for every reachable set: resolution, overlap and block matchers -/
+theorem C15_reachable_resolution_overlap (dd guard : Bool) (s : BSet) (hs : Reachable s) (mint maxt maxRes : Int)
+    (r : List Block) (b : Block) (hg : getFor dd guard s mint maxt maxRes = some r) (hb : b ∈ r) :
+    b.res ≤ maxRes ∧ mint < b.maxt ∧ b.mint ≤ maxt ∧ b.keep = true :=
+  ⟨resolution_wf (reachable_wf hs) hg hb, overlap_any hg hb⟩
+
+/-- C15 for every reachable set: coverage (requests without block matchers) -/
+theorem C15_reachable_cover (dd guard : Bool) (s : BSet) (hs : Reachable s) (mint maxt maxRes t : Int) (r : List Block)
+    (hkeep : ∀ l ∈ s.blocks, ∀ b ∈ l, b.keep = true)
+    (hg : getFor dd guard s mint maxt maxRes = some r) (h1 : mint ≤ t) (h2 : t ≤ maxt)
+    (hex : ∃ l ∈ s.blocks, ∃ b ∈ l, b.res ≤ maxRes ∧ covers b t) : ∃ b' ∈ r, covers b' t :=
+  cover_wf (reachable_wf hs) hkeep hg h1 h2 hex
+
+/-- C15 for every reachable set: no block twice (repaired `getFor`) -/
+theorem C15_reachable_nodup (guard : Bool) (s : BSet) (hs : Reachable s) (mint maxt maxRes : Int) (r : List Block)
+    (hg : getFor true guard s mint maxt maxRes = some r) : r.Nodup :=
+  nodup_wf (reachable_distinct hs) hg
+
+/-- an order-destroying delete (swap with the last block) breaks the invariant `getFor` relies on: after removing the
+    first of three raw blocks that way the level is no longer sorted, and the block [100,200) is lost from the
+    selection for [0,150] (the scan ends at the block [200,300) that now comes first) — what the order-preserving `remove` of the model (and of the code) avoids -/
+theorem C15_swap_delete_breaks :
+    let swapped : BSet := { empty with blocks := [[], [], [⟨2, 0, 200, 300, true⟩, ⟨1, 0, 100, 200, true⟩]] }
+    (getFor true true swapped 0 150 0).map (·.map (·.id)) = some [] ∧
+    (getFor true true (remove (built [⟨0, 0, 0, 100, true⟩, ⟨1, 0, 100, 200, true⟩, ⟨2, 0, 200, 300, true⟩]) 0) 0 150 0).map
+      (·.map (·.id)) = some [1] := by decide
+
+/-- regenerated fact: `remove` deletes with the order-preserving `append(bs[:j], bs[j+1:]...)` -/
+theorem C15_fact_remove :
+    Thanos.Facts.storesBlockSetRemove = ["s.blocks[i] = append(bs[:j], bs[j+1:]...)", "Lock", "Unlock", "append"] := by decide
+
 /-! ### regenerated facts: the level table and the loop conditions are the modelled ones -/
 
 theorem C15_fact_resolutions :
